@@ -128,6 +128,16 @@ Theorem C05_header_writer_from_source : forall n op,
   /\ gf_gws_Opcode_isDataFrame (Z.of_N op) = is_data op.
 Proof. exact header_writer_from_source. Qed.
 
+(* ... and the gates of genFrame in front of the frame construction (text validation, write limit, the decision to
+   compress: flag, data opcode, threshold with >=; masking iff client), as regenerated from writer.go, are the model's *)
+Theorem C05_gates_from_source : forall opcode n limit threshold compress server check_ok,
+  gf_gws_Conn_genFrame_nconds = 4%nat
+  /\ gf_gws_Conn_genFrame_cond1 check_ok (Z.of_N opcode) = ((opcode =? 1)%N && negb check_ok)
+  /\ gf_gws_Conn_genFrame_cond2 limit n = (n >? limit)%Z
+  /\ gf_gws_Conn_genFrame_cond3 threshold compress n (Z.of_N opcode) = (compress && is_data opcode && (n >=? threshold)%Z)
+  /\ gf_gws_Conn_genFrame_cond4 server = negb server.
+Proof. exact gen_genFrame_conditions_are. Qed.
+
 (* non-vacuity: a client text frame of 200 bytes (16-bit length form, masked) built by the model decodes to itself *)
 Example C05_nonvacuous :
   let c := {| w_server := false; w_pmd := false; w_threshold := 512; w_wlimit := 1000; w_utf8 := false |} in
@@ -155,3 +165,4 @@ Print Assumptions C05_flate_segments.
 Print Assumptions C05_stream_compressed.
 Print Assumptions C05_spec_roundtrip.
 Print Assumptions C05_header_writer_from_source.
+Print Assumptions C05_gates_from_source.
